@@ -435,6 +435,13 @@ def extra_c07(prop, tier, seed, profiles):
                 continue                      # set_state to the current state: nothing happened
             prev = None if o.startswith(("panic", "bad")) else (o, L)
             ended_run = 0
+            if prev is not None:
+                # a state entered (or resumed) exactly at its end instant: this observation is the first ended one
+                try:
+                    sm = o.split(" | ")[1].split(" ")
+                    if sm[1] == "1": first_ended_ns = int(sm[2])
+                except (IndexError, ValueError):
+                    pass
         elif w[0] == "adv" and w[1] == "0":
             if o.startswith(("panic", "bad")): prev = None; continue
             vals, meta = o.split(" | ")
